@@ -24,7 +24,7 @@ def check_one(obl, ax, timeout=TIMEOUT_MS, mbqi=False):
     return r, reason, dt, s
 
 
-def try_cvc5(solver, timeout_s=20):
+def try_cvc5(solver, timeout_s=8):
     try:
         smt = '(set-logic ALL)\n' + solver.to_smt2()
         with tempfile.NamedTemporaryFile('w', suffix='.smt2', delete=False) as f:
@@ -36,24 +36,45 @@ def try_cvc5(solver, timeout_s=20):
         return 'error: %s' % e
 
 
+def conjuncts(g):
+    from z3 import is_and
+    if is_and(g):
+        out = []
+        for c in g.children(): out += conjuncts(c)
+        return out
+    return [g]
+
+
+def prove(o, ax, timeout, use_cvc5):
+    """prove one goal (a single conjunct) -> (status, backend, time, detail)"""
+    r, reason, dt, s = check_one(o, ax, timeout); backend = 'z3'
+    if r != unsat:
+        r2, reason2, dt2, s2 = check_one(o, ax, min(timeout, 4000), mbqi=True); dt += dt2
+        if r2 == unsat: r, backend = r2, 'z3-mbqi'
+        elif use_cvc5:
+            c = try_cvc5(s)
+            if c == 'unsat': r, backend = unsat, 'cvc5'
+    if r == unsat: return 'discharged', backend, dt, ''
+    if 'timeout' in reason or 'canceled' in reason: return 'undecided', backend, dt, reason
+    return 'not-discharged', backend, dt, reason
+
+
 def discharge(obls, use_cvc5=True, timeout=TIMEOUT_MS):
-    """-> list of dict(name, status, backend, time, detail);  status: discharged | not-discharged | undecided | canary-ok | canary-VACUOUS"""
+    """-> list of dict(name, status, backend, time, detail);  status: discharged | not-discharged | undecided | canary-ok | canary-VACUOUS.
+    A conjunctive goal is proved conjunct by conjunct (earlier conjuncts become assumptions)."""
+    from .engine import Obl
     ax = background(); out = []
     for o in obls:
-        r, reason, dt, s = check_one(o, ax, timeout)
         if o.kind == 'canary':
+            r, reason, dt, s = check_one(o, ax, min(timeout, 5000))
             # a canary is `False`: it must NOT be provable (else the premises are contradictory)
             st = 'canary-VACUOUS' if r == unsat else 'canary-ok'
             out.append(dict(name=o.name, status=st, backend='z3', time=dt, detail=str(r))); continue
-        backend = 'z3'
-        if r != unsat:
-            r2, reason2, dt2, s2 = check_one(o, ax, min(timeout, 10000), mbqi=True); dt += dt2
-            if r2 == unsat: r, backend = r2, 'z3-mbqi'
-            elif use_cvc5:
-                c = try_cvc5(s)
-                if c == 'unsat': r, backend = unsat, 'cvc5'
-        if r == unsat: st = 'discharged'
-        elif 'timeout' in reason or 'canceled' in reason: st = 'undecided'
-        else: st = 'not-discharged'
-        out.append(dict(name=o.name, status=st, backend=backend, time=dt, detail=reason))
+        cs = conjuncts(o.goal); pc = list(o.pc); status, backends, total, detail = 'discharged', set(), 0.0, ''
+        for i, c in enumerate(cs):
+            st, be, dt, det = prove(Obl(o.name, pc, c), ax, timeout, use_cvc5); total += dt; backends.add(be)
+            if st != 'discharged':
+                status = st; detail = 'conjunct %d/%d: %s | %s' % (i + 1, len(cs), str(c).replace('\n', ' ')[:300], det); break
+            pc.append(c)
+        out.append(dict(name=o.name, status=status, backend='+'.join(sorted(backends)), time=total, detail=detail))
     return out
